@@ -109,7 +109,9 @@ class PersistentMixin(Module):
             try:
                 pobj = self.parameters[pname]
                 if getattr(pobj, 'persistent', False):
-                    result[pname] = self.parameters[pname].datatype.import_value(value)
+                    # convert like any value assigned to the parameter: import_value alone lets
+                    # through values the datatype can not hold (e.g. a tuple of the wrong length)
+                    result[pname] = pobj.datatype(pobj.datatype.import_value(value))
             except Exception as e:
                 # ignore invalid persistent data (in case parameters have changed)
                 self.log.warning('can not restore %r to %r (%r)', pname, value, e)
